@@ -48,7 +48,7 @@ CLAIMS = {
    "Fault-free configuration. Range bounds inclusive on both ends as in the query engine."),
  "C06": ("query-sim", "exploration", "7.6",
    "deterministic simulation with fault injection: stored-byte damage (truncation, bit flips, garbage, deleted/swapped/foreign files) of one day of a database written by the real writer; real query engine and listing; containment oracle against the reference query model",
-   "A valid database (2 interfaces x 3 days) is written by the real writer, 1-3 damage faults hit column or metadata files of one (interface, day), then queries with time/interface labels (1-4 workers, low-mem on/off) and both interface summaries run: no crash (a panic in a worker goroutine kills the worker process and is reported as process-crash), a result instead of an error, rows of every undamaged day exactly as the model, skipped blocks counted in Summary.Stats when the metadata is intact.",
+   "A valid database (2 interfaces x 3 days) is written by the real writer, 1-3 damage faults hit column or metadata files of one (interface, day) - in one run of three one of them strikes while the first query is running, after a drawn number of its file-system operations (after the metadata was read, between column reads) - then queries with time/interface labels (1-4 workers, low-mem on/off) and both interface summaries run: no crash (a panic in a worker goroutine kills the worker process and is reported as process-crash), a result instead of an error, rows of every undamaged day exactly as the model, skipped blocks counted in Summary.Stats when the metadata is intact.",
    "No checksums exist, so rows attributed to the damaged day are unconstrained. Length fields of damaged metadata are clamped to 64 MiB (allocation behaviour is a C03 known finding)."),
  "C08": ("query-sim", "exploration", "7.8",
    "deterministic simulation (fault-free configuration): databases written by the real writer on the simulated disk, generated queries executed by the real engine with drawn worker count / memory mode, compared with an executable reference aggregation (M_query) that evaluates generated condition ASTs independently",
